@@ -225,7 +225,9 @@ def main(method_name, syslog):
 
     def _read_next_string_line():
         try:
-            line = stdin.readline(128)
+            # Always read a whole line: a HOST line carries a name of up to
+            # 253 characters, so a short read limit would cut it in pieces.
+            line = stdin.readline()
             if not line:
                 return  # parent probably exited
             return line.decode('ASCII').strip()
